@@ -26,21 +26,32 @@ ASSUMPTIONS = [
 ]
 HARNESSES = [("h_score", "rel")]
 META = {
-    "text": "Theorems (Coq, all views, any number of keystones, by induction): the sign of comparePopScoreImpl "
-            "as coded (int scores, NO_ENDORSEMENT sentinel, early exits, UB as explicit outcome) equals the sign of "
-            "a declarative keystone-by-keystone scorer, both for views with holes (nullptr = no publication) and "
-            "for the real ReducedPublicationView (unpublished keystone = context holding INT32_MAX = infinitely "
-            "late publication); exact antisymmetry under role swap; 0 without keystones; the outer short-cuts "
-            "never favour an invalid candidate or one forking below a finalized block. keystone_util.cpp is "
-            "regenerated from the clang AST and proved equal to k*ki / floor(h/ki) arithmetic on the int32 range. "
-            "REFUTED (finding): on real views the verdict differs from the reading pinned by the repo's unit "
-            "tests (a keystone without publication is merely missing).",
-    "note": "Trusted: Coq kernel, extraction, OCaml driver, C++ harness (synthetic view mimicking "
-            "ReducedPublicationView), tools/gen_keystone.py (clang JSON AST -> Gallina, fails closed), "
-            "tools/gen_scoreparams.py (regex, cross-checked against the linked library at run time). Signed "
-            "overflow / empty-table read are explicit Ub outcomes, excluded by the range hypotheses.",
-    "technique": "Coq proof (induction over the keystone list; lia) + source-generated leaf functions + "
-                 "extraction-based differential correspondence with direct oracles",
+    "text": "Theorems (Coq 8.16, closed under the global context, for ALL views with any number of keystones, by "
+            "induction over the keystone list): (1) impl_sign_eq_spec[_gen]/impl_real_sign_eq_spec: "
+            "comparePopScoreImpl as coded (int scores, NO_ENDORSEMENT=INT32_MAX sentinel, int64 gap test, early "
+            "breaks, signed overflow / empty-table read as explicit Ub outcome) returns Ok r with sgn r = sgn of a "
+            "declarative keystone-by-keystone scorer over unbounded Z with option/extended heights, no sentinel, no "
+            "early exit, explicit alive flags - both for views with holes (getKeystone = nullptr: 'missing keystone' "
+            "reading) and for the production ReducedPublicationView (context holding INT32_MAX: 'infinitely late "
+            "publication' reading); hypotheses: table non-empty with entries >= 0, finality delay >= 0, heights in "
+            "[0, INT32_MAX - fd) and <= INT32_MAX - table size, #keystones * max entry <= INT32_MAX, discharged for "
+            "the defaults generated from /repo (default_params_ok). (2) impl_antisym: exact antisymmetry "
+            "impl(b,a) = -impl(a,b) whenever defined and != INT32_MIN (+ Ub symmetric). (3) cmp_zero_no_keystone, "
+            "view_empty_iff_not_crossed. (4) outer comparePopScore short-cuts as a decision function: never "
+            "favours an invalid candidate, failing payloads, or a fork below a finalized block. (5) the eight "
+            "functions of keystone_util.cpp, regenerated from the clang AST on every run, equal floor/ceiling "
+            "keystone arithmetic with outcome Ok on the stated int32/uint32 ranges and Abort on negative heights. "
+            "REFUTED (real_view_pub_reading_refuted, a finding): on the production view the verdict is NOT the "
+            "'missing keystone' reading that the repo's own unit tests pin on their mock view.",
+    "note": "Trusted: Coq kernel, extraction (ExtrOcamlBasic), OCaml driver, C++ harness incl. its synthetic view "
+            "(mimics ReducedPublicationView on top of the library's keystone_util), tools/gen_keystone.py (clang "
+            "JSON AST -> Gallina, tiny subset, fails closed), tools/gen_scoreparams.py (regex, fails closed, "
+            "cross-checked against the linked library at run time). Not exercised on real block trees: "
+            "getProtoKeystoneContext/getKeystoneContext (which endorsements count) and the outer comparePopScore "
+            "(modelled as a decision function only). No axioms.",
+    "technique": "Coq proof (refinement invariant, induction over the keystone list; lia) + source-generated leaf "
+                 "functions and parameters + extraction-based differential correspondence with direct oracles "
+                 "(spec sign, antisymmetry, zero, keystone maths) and exhaustive small-scope sweeps",
 }
 
 MAXI = 2 ** 31 - 1
@@ -95,9 +106,28 @@ class Cases:
         return cid
 
 
+def default_configs():
+    """the defaults of the repo under test, as generated into coq/Gen/ScoreParams.v by tools/gen_scoreparams.py
+    (compared with the linked library by the `params` case)"""
+    import re
+    try:
+        src = open(os.path.join(vlib.COQ, "Gen", "ScoreParams.v")).read()
+        out = []
+        for pre in ("alt", "vbk"):
+            ki = int(re.search(r"Definition %s_keystone_interval : Z := (\d+)\." % pre, src).group(1))
+            fd = int(re.search(r"Definition %s_finality_delay : Z := (\d+)\." % pre, src).group(1))
+            tb = [int(x) for x in re.search(r"Definition %s_fr_table : list Z := \[([^\]]*)\]\." % pre, src).group(1).split(";")]
+            out.append((tb, fd, ki))
+        return out
+    except (OSError, AttributeError, ValueError):
+        return [(DEFAULT_TABLE, 100, 5), (DEFAULT_TABLE, 11, 20)]
+
+
 def gen_profile(r, cfg, high=False):
     table, fd, ki = cfg
     maxn = max(0, min(8, (MAXI // max(table)) if max(table) > 0 else 8))
+    if cfg in DEFAULTS:
+        maxn = 8    # production defaults: always exercised, whatever the table says
     n = r.choice([0, 1, 1, 2, 2, 3, 3, 4, 5, 6, 8])
     n = min(n, maxn, 4 if high else 8)
     incs = [0, 0, 1, 1, 2, 3, fd - 1, fd, fd, fd + 1, fd + 1, fd + 2, len(table) - 1, len(table), len(table) + 1, 2 * fd + 1]
@@ -140,8 +170,13 @@ def mutate(r, cfg, p):
     return p
 
 
+DEFAULTS = []
+
+
 def gen_cases(ctx, cs, n_random):
     r = ctx.rng
+    DEFAULTS[:] = default_configs()
+    CONFIGS[0:2] = DEFAULTS
     cs.add("params")
     # ---- keystone_util: exhaustive over heights -5..300 x intervals 1..25 ----
     for ki in range(1, 26):
@@ -181,7 +216,7 @@ def gen_cases(ctx, cs, n_random):
     # missing keystone at each position / role swap on a fixed ladder, every config and reading
     for cfg in CONFIGS:
         table, fd, ki = cfg
-        n = min(5, MAXI // max(1, max(table)))
+        n = 5 if cfg in DEFAULTS else min(5, MAXI // max(1, max(table)))
         ladder = [10 + i for i in range(n)]
         for reading in ("pub", "inf"):
             for i in range(n + 1):
@@ -308,6 +343,14 @@ def evaluate(ctx, model, harness, cases, spec, tag):
             h, ki = int(args[0], 16), int(args[1], 16)
             if 0 <= h and 0 < ki and h + ki + 1 <= MAXI:
                 math.append((cid, "m2", args))
+        elif op == "k3":
+            a, b, ki = int(args[0], 16), int(args[1], 16), int(args[2], 16)
+            if 0 <= a <= MAXI and 0 <= b <= MAXI and 0 < ki < 2 ** 32:
+                math.append((cid, "m3", args))
+        elif op == "gpk":
+            h, ki, n = int(args[0], 16), int(args[1], 16), int(args[2], 16)
+            if 0 <= h <= MAXI and 0 < ki and 0 <= n and (n + 1) * ki <= MAXI:
+                math.append((cid, "mgpk", args))
     if math:
         inp4 = os.path.join(ctx.work, tag + "-math.txt")
         write_cases(inp4, math)
